@@ -590,7 +590,7 @@ func genRange(r *vh.Run, stream string, idx int, mod, via string, allowHuge, nee
 // histories: several responses are produced before any of their bodies is read
 
 type histCase struct {
-	Kind   string `json:"kind"` // "hist" | "chist"
+	Kind   string `json:"kind"` // "hist" | "chist" | "fresh"
 	Stream string `json:"stream"`
 	Idx    int    `json:"idx"`
 	G      int    `json:"g,omitempty"` // chist: goroutines running histories side by side
@@ -683,10 +683,17 @@ func (e *env) judgeHist(parent interface{}, hist []rangeCase, pos int, c rangeCa
 	r.Count("body_bytes_compared", int64(len(o.Body)))
 	if clause != "" {
 		r.ViolationCase(parent, "C20:"+clause+":"+modName+":"+exp.Group,
-			fmt.Sprintf("%s, response %d of a history of %d produced before any body was read, Range %q on %d bytes: %s", modName, pos, len(hist), seen, c.Size, what),
+			fmt.Sprintf("%s, %s, Range %q on %d bytes: %s", modName, histWhere(c.Via, pos, len(hist)), seen, c.Size, what),
 			map[string]interface{}{"history": hist, "expected": exp.String(), "status": o.Status, "content_length": o.ContentLength,
 				"content_range": o.Header.Get("Content-Range"), "content_type": o.Header.Get("Content-Type"), "body_len": len(o.Body), "body_err": o.BodyErr})
 	}
+}
+
+func histWhere(via string, pos, n int) string {
+	if via == "fresh" {
+		return fmt.Sprintf("request %d of a goroutine on a freshly constructed modifier whose first requests are issued concurrently", pos)
+	}
+	return fmt.Sprintf("response %d of a history of %d produced before any body was read", pos, n)
 }
 
 func (e *env) ensurePool() {
@@ -708,6 +715,73 @@ func (e *env) runConcurrentHistories(c histCase) {
 			}
 		}(g)
 	}
+	wg.Wait()
+}
+
+// runFreshRound: F freshly constructed body modifiers; on each of them G
+// goroutines, released together, issue their very first requests - all of
+// them multi-range - concurrently (then one more of any kind). Whatever a
+// modifier sets up lazily on first use is set up under contention here.
+func (e *env) runFreshRound(c histCase) {
+	r := e.r
+	rng := r.Rng(c.Stream, c.Idx)
+	const F = 4
+	var wg sync.WaitGroup
+	start := make(chan struct{})
+	for f := 0; f < F; f++ {
+		size := poolSizes[4+rng.Intn(len(poolSizes)-4)] // >= 9 bytes: room for several ranges
+		content := contentOf(1000, size)
+		mod := body.NewModifier(content, "application/x-stamp")
+		name := cname(1000, size)
+		for g := 0; g < c.G; g++ {
+			wg.Add(1)
+			go func(f, g int) {
+				defer wg.Done()
+				grng := r.Rng(fmt.Sprintf("%s/r%d/f%d", c.Stream, c.Idx, f), g)
+				type prepared struct {
+					c    rangeCase
+					exp  rangex.Expect
+					seen string
+					req  *http.Request
+				}
+				var ps []prepared
+				for j := 0; j < 2; j++ {
+					var h, kind string
+					var present bool
+					for tries := 0; ; tries++ {
+						h, present, kind = rangex.Gen(grng, size, false)
+						if j > 0 || tries > 200 {
+							break
+						}
+						if kind == "multi" {
+							if ex := rangex.Evaluate(h, present, size); ex.Allow206 && !ex.AllowFull && len(ex.Ranges) > 1 {
+								break
+							}
+						}
+					}
+					rc := rangeCase{Kind: "range", Mod: "body", Via: "fresh", Size: size, CID: 1000, Present: present, Range: h, Gen: kind}
+					req, _, ok := wireRequest("/c/"+name, h, present, "")
+					if !ok {
+						req, _ = http.NewRequest("GET", "http://static.test/c/"+name, nil)
+						if present {
+							req.Header["Range"] = []string{h}
+						}
+					}
+					seen, pres := "", false
+					if v, has := req.Header["Range"]; has && len(v) > 0 {
+						seen, pres = v[0], true
+					}
+					ps = append(ps, prepared{rc, rangex.Evaluate(seen, pres, size), seen, req})
+				}
+				<-start
+				for j, p := range ps {
+					cr := produce(mod, p.req).consume(bodyLimit(content))
+					e.judgeHist(c, []rangeCase{p.c}, j, p.c, p.exp, content, p.seen, cr)
+				}
+			}(f, g)
+		}
+	}
+	close(start)
 	wg.Wait()
 }
 
@@ -1238,6 +1312,12 @@ func run(r *vh.Run, batch string) {
 			c := histCase{Kind: "chist", Stream: stream, Idx: i, G: 2 + rng.Intn(3), M: 20}
 			r.Case(c)
 			e.runConcurrentHistories(c)
+			// and first-use contention on freshly constructed modifiers
+			for k := 0; k < 5; k++ {
+				fc := histCase{Kind: "fresh", Stream: stream + "/fresh", Idx: i*5 + k, G: 3 + rng.Intn(6)}
+				r.Case(fc)
+				e.runFreshRound(fc)
+			}
 			runtime.GC()
 		}
 	case batch == "huge-body":
@@ -1417,6 +1497,14 @@ func replay(r *vh.Run, raw json.RawMessage) {
 		e := newEnv(r)
 		e.ensurePool()
 		e.runHistory(c.Stream, c.Idx, "hist", c)
+	case "fresh":
+		var c histCase
+		json.Unmarshal(raw, &c)
+		e := newEnv(r)
+		e.ensurePool()
+		for i := 0; i < 200; i++ {
+			e.runFreshRound(c)
+		}
 	case "chist":
 		var c histCase
 		json.Unmarshal(raw, &c)
